@@ -62,7 +62,7 @@ func genC14(seed uint64, tier string) *C14Plan {
 		for j := 0; j < nc; j++ {
 			a := "normal"
 			if faulty && g.Prob(0.4) {
-				a = simkit.Pick(g, []string{"slow", "slow", "dup", "dup", "silent", "late"})
+				a = simkit.Pick(g, []string{"slow", "slow", "dup", "dup", "silent", "late", "werr"})
 			}
 			e.Callers = append(e.Callers, a)
 		}
@@ -85,6 +85,8 @@ type c14Caller struct {
 	sentAt   time.Duration
 	reqID    int32
 	seenByTC bool
+	// writeFailed: the write of the request was refused (kind "werr")
+	writeFailed bool
 	deliv    []time.Duration // instants a reply for this request was handed to the client's handler
 	resp     interface{}
 	err      error
@@ -174,7 +176,9 @@ func runC14(t *testing.T, seed uint64, planJSON []byte, tier string) (res *Resul
 			c.seenByTC = true
 			c.reqID = f.ID
 			byID[f.ID] = c
-			if ep != nil && ep.ServerRequest && firstSeen < 0 {
+			// (the fresh request after the disturbance triggers none itself)
+			isFresh := strings.HasSuffix(c.name, "-fresh")
+			if ep != nil && ep.ServerRequest && firstSeen < 0 && !isFresh {
 				clash := f.ID
 				failOnce := true
 				net.WriteHook = func(sid int, code int) error {
@@ -193,7 +197,7 @@ func runC14(t *testing.T, seed uint64, planJSON []byte, tier string) (res *Resul
 					}
 				})
 			}
-			if firstSeen < 0 {
+			if firstSeen < 0 && !isFresh {
 				firstSeen = sim.Now()
 				if ep != nil && ep.CloseAfterMs > 0 {
 					sim.Post("c14-close", time.Duration(ep.CloseAfterMs)*time.Millisecond+13*time.Microsecond, "", func() {
@@ -234,6 +238,17 @@ func runC14(t *testing.T, seed uint64, planJSON []byte, tier string) (res *Resul
 			return true
 		}
 
+		// callers of kind "werr": the write of their request meets an error (the
+		// request never leaves the client)
+		net.WriteHookFrame = func(sid int, f *simtc.Frame) error {
+			if f.Body.Code == simtc.TGlobalBegin && callers != nil {
+				if c := callers[f.Body.Name]; c != nil && c.act == "werr" {
+					c.writeFailed = true
+					return errors.New("simnet: write failed (injected)")
+				}
+			}
+			return nil
+		}
 		for i := range plan.Episodes {
 			ep = &plan.Episodes[i]
 			net.WriteHook = nil
@@ -354,7 +369,7 @@ func actSet(a []string) string {
 	for _, x := range a {
 		m[x]++
 	}
-	return fmt.Sprintf("n%d/s%d/d%d/x%d/l%d", m["normal"], m["slow"], m["dup"], m["silent"], m["late"])
+	return fmt.Sprintf("n%d/s%d/d%d/x%d/l%d/w%d", m["normal"], m["slow"], m["dup"], m["silent"], m["late"], m["werr"])
 }
 
 func checkC14(sim *simkit.Sim, idx int, ep *C14Episode, list []*c14Caller, fresh *c14Caller, futDelta, parkedDelta int) {
@@ -431,7 +446,13 @@ func checkC14(sim *simkit.Sim, idx int, ep *C14Episode, list []*c14Caller, fresh
 				timedOut++
 			}
 		}
-		if timedOut > 0 {
+		werr := false
+		for _, c := range list {
+			werr = werr || c.writeFailed
+		}
+		if werr {
+			cls = "futures-left-after-write-error"
+		} else if timedOut > 0 {
 			cls = "futures-left-after-timeout"
 		} else if sim.Probes["heartbeat-sent"] > 0 {
 			cls = "futures-left-by-oneway"
